@@ -136,6 +136,27 @@ def runValidate (E : Env) (t : TraitCore) (v : Id) (c : Ctx) : Except Exc Id × 
   | none => (.ok v, c)
   | some k => (E.validate k c.nval v, { c with nval := c.nval + 1 })
 
+/-- `PyObject_Call(callable, …)` for a default: the call is recorded (its ordinal is
+the number of earlier factory calls) and the result materialised.  `arg` is the
+object for `_name_default(self)`, `None` for `factory(*args, **kw)`. -/
+def callFactory (E : Env) (f obj : Id) (name : Name) (arg : Id) (c : Ctx) : Except Exc Id × Ctx :=
+  match E.factory f c.fcalls.length arg with
+  | .error e => (.error e, { c with fcalls := c.fcalls ++ [(f, obj, name)] })
+  | .ok r =>
+    match ({ c with fcalls := c.fcalls ++ [(f, obj, name)] } : Ctx).allocRes r with
+    | (v, c2) => (.ok v, c2)
+
+/-- ctraits.c:1885-1899: the result of `_name_default(self)` is validated; a trait
+that stores original values keeps the unvalidated result. -/
+def validateDefault (E : Env) (t : TraitCore) (v : Id) (c : Ctx) : Except Exc Id × Ctx :=
+  match t.validate with
+  | none => (.ok v, c)
+  | some _ =>
+    match runValidate E t v c with
+    | (.error e, c3) => (.error e, c3)
+    | (.ok w, c3) =>
+      if testFlag t.flags Generated.TRAIT_SETATTR_ORIGINAL_VALUE then (.ok v, c3) else (.ok w, c3)
+
 /-- `default_value_for(trait, obj, name)` (ctraits.c:1840-1913). -/
 def defaultValueFor (E : Env) (t : TraitCore) (obj : Id) (name : Name) (c : Ctx) : Except Exc Id × Ctx :=
   if t.dvt = Generated.CONSTANT_DEFAULT_VALUE ∨ t.dvt = Generated.MISSING_DEFAULT_VALUE then
@@ -147,32 +168,16 @@ def defaultValueFor (E : Env) (t : TraitCore) (obj : Id) (name : Name) (c : Ctx)
         ∨ t.dvt = Generated.TRAIT_LIST_OBJECT_DEFAULT_VALUE ∨ t.dvt = Generated.TRAIT_DICT_OBJECT_DEFAULT_VALUE
         ∨ t.dvt = Generated.TRAIT_SET_OBJECT_DEFAULT_VALUE then
     -- PySequence_List / PyDict_Copy / call_class(Trait{List,Dict,Set}Object, …, default_value)
-    let (i, c') := c.copyOf (t.dv.getD noneId)
-    (.ok i, c')
+    match c.copyOf (t.dv.getD noneId) with
+    | (i, c') => (.ok i, c')
   else if t.dvt = Generated.CALLABLE_AND_ARGS_DEFAULT_VALUE then
     -- PyObject_Call(dv[0], dv[1], dv[2])
-    let f := t.dv.getD noneId
-    let c1 := { c with fcalls := c.fcalls ++ [(f, obj, name)] }
-    match E.factory f c.fcalls.length noneId with
-    | .error e => (.error e, c1)
-    | .ok r =>
-      let (v, c2) := c1.allocRes r
-      (.ok v, c2)
+    callFactory E (t.dv.getD noneId) obj name noneId c
   else if t.dvt = Generated.CALLABLE_DEFAULT_VALUE then
     -- result = default_value(obj); then validate
-    let f := t.dv.getD noneId
-    let c1 := { c with fcalls := c.fcalls ++ [(f, obj, name)] }
-    match E.factory f c.fcalls.length obj with
-    | .error e => (.error e, c1)
-    | .ok r =>
-      let (v, c2) := c1.allocRes r
-      match t.validate with
-      | none => (.ok v, c2)
-      | some _ =>
-        match runValidate E t v c2 with
-        | (.error e, c3) => (.error e, c3)
-        | (.ok w, c3) =>
-          if testFlag t.flags Generated.TRAIT_SETATTR_ORIGINAL_VALUE then (.ok v, c3) else (.ok w, c3)
+    match callFactory E (t.dv.getD noneId) obj name obj c with
+    | (.error e, c1) => (.error e, c1)
+    | (.ok v, c2) => validateDefault E t v c2
   else
     -- DISALLOW_DEFAULT_VALUE: ValueError("default value not permitted for this trait")
     (.error .valueError, c)
